@@ -111,6 +111,12 @@ def run(chk):
             for want_json in ((False, True) if (rng.random() < 0.3 or '\\' in pl or '"' in pl) else (False,)):
                 recs.append(request(apps, kind, ch, pl, want_json))
                 chk.count(1, (kind, ch, pl, want_json))
+    # long URLs (pages may abbreviate them): markup at the very beginning and at the very end of a long query / host
+    for pl in ['<b>' + 'a' * 700, 'a' * 700 + '<i>', '"' + 'x' * 600 + "'", '<' + 'é' * 300 + '>', '&' * 520, 'a' * 530 + '{0}<u>']:
+        for kind in ('404', '405', '500', '400'):
+            for ch in ('query', 'host'):
+                recs.append(request(apps, kind, ch, pl, False))
+                chk.count(1, (kind, ch, pl[:8], len(pl)))
     # JSON error documents with text that must be escaped in JSON but means nothing to HTML (control characters, backslash sequences)
     for pl in ['C:\\docs\\x', '\\d+', '\\', 'a\\', '\\"', '\tq', 'a\nb', '\x01', '\x1f', '\x7f', '\\u0041', '\\n', '"}', '", "x": "']:
         for kind in ('404', '405', '500', '400', '413'):
